@@ -67,6 +67,7 @@ class UnitResult:
         self.lemmas = []
         self.cmd = ""
         self.limit_hit = None
+        self.unproven = []      # (fn_id, text): assert!-family macros of the real code that were not proven; undecided, never a violation
 
 
 def _run_verus(path, multiple_errors=10, timeout=900, rlimit=None):
@@ -213,6 +214,35 @@ def run_unit(name, repo="/repo", keep=None, rlimit=None, canary=True):
         shutil.rmtree(scratch, ignore_errors=True)
 
 
+def _macro_origin(unit, name, spans):
+    """If a failing diagnostic's primary span lies outside the unit file (inside a std macro definition), follow the
+    expansion chain back to the call site in the unit file. -> (fn_id, text) or None."""
+    base = "%s.rs" % name
+    for sp in sorted(spans, key=lambda s: not s.get("is_primary")):
+        fnm = os.path.basename(sp.get("file_name", ""))
+        if fnm == base or fnm == "%s_canary.rs" % name:
+            return None
+        chain = []
+        e = sp.get("expansion")
+        site = None
+        while e:
+            chain.append(e.get("macro_decl_name") or "?")
+            s2 = e.get("span") or {}
+            if os.path.basename(s2.get("file_name", "")) == base:
+                site = s2
+                break
+            e = s2.get("expansion")
+        fn_id = "<template>"
+        txt = ""
+        if site is not None:
+            r0 = _fn_region_of(unit, site["byte_start"])
+            if r0:
+                fn_id = r0.fn_id
+            txt = _clean(_span_text(unit.text.encode("utf-8"), site))[:140]
+        return (fn_id, "%s in %s not proven to hold: %s" % (chain[-1] if chain else "macro", fn_id, txt))
+    return None
+
+
 def _digest_main(res, unit, out, diags, raw):
     data = unit.text.encode("utf-8")
     if raw == "timeout":
@@ -247,6 +277,14 @@ def _digest_main(res, unit, out, diags, raw):
             others.append(d)
             continue
         spans = d.get("spans", [])
+        mac = _macro_origin(unit, res.name, spans)
+        if mac is not None:
+            # the failing obligation is the condition of an assert!/debug_assert!/panic!-family macro that the *real code*
+            # contains (its span lies in the macro's definition, outside the unit file). "Not proven" is not "can fail":
+            # such a check is usually true for reasons outside the contracts (e.g. lengths of std collections), so
+            # this is reported as undecided for the enclosing function, never as a violation.
+            res.unproven.append(mac)
+            continue
         fn_r = None
         bodyless = set(f["id"] for f in unit.functions if not f["has_body"])
         cands = []
@@ -289,6 +327,8 @@ def _digest_main(res, unit, out, diags, raw):
         res.status = "failures"
     elif limit_hit:
         res.status, res.undecided_reason = "undecided", limit_hit
+    elif res.unproven:
+        pass        # reported by the driver as undecided for the properties the enclosing function serves
     elif not vr.get("success", False):
         res.status, res.undecided_reason = "undecided", "verus reported failure without a diagnostic: %s" % raw[:500]
 
